@@ -164,6 +164,9 @@ func (builder *RuleBuilder) BuildRuleFromResource(name, version string, resource
 		return fmt.Errorf("KnowledgeBase %s:%s is not in this library", name, version)
 	}
 
+	// a resource is loaded completely or not at all
+	restore := knowledgeBase.Checkpoint()
+
 	listener := antlr2.NewGruleV3ParserListener(knowledgeBase, errReporter)
 
 	psr := parser.Newgrulev3Parser(stream)
@@ -192,6 +195,7 @@ func (builder *RuleBuilder) BuildRuleFromResource(name, version string, resource
 		for i, err := range errReporter.Errors {
 			BuilderLog.Errorf("%d : %s", i, err.Error())
 		}
+		restore()
 
 		return errReporter
 	}
